@@ -34,6 +34,8 @@ import (
 
 // ---- the NEP-2 definition, evaluated without any neo-go code except the key's address text ----
 
+func c18Sha256(b []byte) []byte { h := sha256.Sum256(b); return h[:] }
+
 func c18Sha256d(b []byte) []byte {
 	h1 := sha256.Sum256(b)
 	h2 := sha256.Sum256(h1[:])
@@ -62,6 +64,21 @@ func c18RefNEP2(priv []byte, addr string, passNorm []byte, p keys.ScryptParams) 
 	payload = append(payload, body...)
 	full := append(bytes.Clone(payload), c18Sha256d(payload)[:4]...)
 	return mrbase58.Encode(full), body, nil
+}
+
+// scrypt takes the passphrase as the key of HMAC-SHA256 (PBKDF2, RFC 7914 / RFC 2104): a key of up to 64 bytes is padded
+// with zero bytes to 64, a longer one is replaced by its SHA-256 first. Two passphrases are therefore THE SAME for
+// scrypt - whatever implements it - exactly when this key is the same: "a" and "a\x00" are, and so are a passphrase
+// of more than 64 bytes and the 32 bytes of its SHA-256. This is part of the definition of NEP-2's KDF, not of neo-go.
+func c18HmacKey(pass []byte) []byte {
+	k := make([]byte, 64)
+	if len(pass) > 64 {
+		h := sha256.Sum256(pass)
+		copy(k, h[:])
+	} else {
+		copy(k, pass)
+	}
+	return k
 }
 
 // ---- passphrase material ----
@@ -214,13 +231,16 @@ func c18Nep2(co *caseOut, in c18xInput) {
 	p, q := unhx(in.P), unhx(in.Q)
 	params := c18Nep2Params(in.Mode)
 	np, nq := norm.NFC.Bytes(p), norm.NFC.Bytes(q)
-	same := bytes.Equal(np, nq)
+	// "the same passphrase" for NEP-2: the NFC forms are the same HMAC key (see c18HmacKey)
+	same := bytes.Equal(c18HmacKey(np), c18HmacKey(nq))
 	bucket := "different"
 	switch {
 	case bytes.Equal(p, q):
 		bucket = "identical"
-	case same:
+	case bytes.Equal(np, nq):
 		bucket = "nfc-equal"
+	case same:
+		bucket = "hmac-equal"
 	case bytes.Equal(norm.NFKC.Bytes(p), norm.NFKC.Bytes(q)):
 		bucket = "nfkc-equal-only"
 	}
@@ -259,7 +279,7 @@ func c18Nep2(co *caseOut, in c18xInput) {
 	}
 	if ok, why := gives(e, string(q)); ok != same {
 		if same {
-			bad("NEP-2: a passphrase that is the same text (NFC-equal, other spelling) does not decrypt the key", map[string]string{"p": hx(p), "q": hx(q), "err": why})
+			bad("NEP-2: a passphrase that is the same text (NFC-equal, other spelling; or the same HMAC key) does not decrypt the key", map[string]string{"p": hx(p), "q": hx(q), "err": why})
 		} else {
 			bad("NEP-2: a DIFFERENT passphrase (not NFC-equal) decrypts the key", map[string]string{"p": hx(p), "q": hx(q), "class": bucket})
 		}
@@ -270,10 +290,10 @@ func c18Nep2(co *caseOut, in c18xInput) {
 		return
 	}
 	if (e2 == e) != same {
-		bad("NEP-2: encryption is a function of the NFC form of the passphrase: equal envelopes <=> NFC-equal passphrases", map[string]string{"p": hx(p), "q": hx(q), "e(p)": e, "e(q)": e2})
+		bad("NEP-2: encryption is a function of the NFC form of the passphrase: equal envelopes <=> the same passphrase (NFC, then HMAC key)", map[string]string{"p": hx(p), "q": hx(q), "e(p)": e, "e(q)": e2})
 	}
 	if ok, why := gives(e2, string(p)); ok != same {
-		bad("NEP-2 (other direction): decrypt(encrypt(k, q), p) = k must hold exactly when NFC p = NFC q", map[string]string{"p": hx(p), "q": hx(q), "err": why})
+		bad("NEP-2 (other direction): decrypt(encrypt(k, q), p) = k must hold exactly when p and q are the same passphrase (NFC, then HMAC key)", map[string]string{"p": hx(p), "q": hx(q), "err": why})
 	}
 	// wallet-level paths
 	acc := wallet.NewAccountFromPrivateKey(priv)
@@ -282,7 +302,7 @@ func c18Nep2(co *caseOut, in c18xInput) {
 	}
 	a2, err := wallet.NewAccountFromEncryptedWIF(e, string(q), params)
 	if (err == nil) != same {
-		bad("wallet.NewAccountFromEncryptedWIF: must succeed exactly when NFC p = NFC q", fmt.Sprint(err))
+		bad("wallet.NewAccountFromEncryptedWIF: must succeed exactly when p and q are the same passphrase (NFC, then HMAC key)", fmt.Sprint(err))
 	} else if err == nil && (!bytes.Equal(a2.PrivateKey().Bytes(), kb) || a2.Address != priv.Address() || a2.EncryptedWIF != e) {
 		bad("wallet.NewAccountFromEncryptedWIF returns another account", a2.Address)
 	}
@@ -295,7 +315,7 @@ func c18Nep2(co *caseOut, in c18xInput) {
 		} else {
 			derr := a3.Decrypt(string(q), params)
 			if (derr == nil) != same {
-				bad("wallet.Account.Decrypt (account read back from JSON): must succeed exactly when NFC p = NFC q", fmt.Sprint(derr))
+				bad("wallet.Account.Decrypt (account read back from JSON): must succeed exactly when p and q are the same passphrase (NFC, then HMAC key)", fmt.Sprint(derr))
 			} else if derr == nil && !bytes.Equal(a3.PrivateKey().Bytes(), kb) {
 				bad("wallet.Account.Decrypt gives another key", nil)
 			}
@@ -537,7 +557,7 @@ func c18Nep2Generate(co *caseOut, r *rng, cf *commonFlags) {
 	long3k := bytes.Repeat([]byte("\u00e9fi"), 600)
 	for _, pq := range [][2][]byte{{nil, nil}, {nil, []byte(" ")}, {nil, []byte("\x00")}, {nil, []byte("\u0301")}, {long1, long1}, {long1, long1[:len(long1)-1]},
 		{long2, append([]byte("\u00e9"), bytes.Repeat([]byte("\u0301"), 39)...)}, {long2, long2[:len(long2)-2]}, {long3, long3d}, {long3, long3k},
-		{[]byte("a\x00b"), []byte("a")}, {[]byte("a\x00b"), []byte("a\x00b")}, {[]byte("a\x00"), []byte("a")}, {[]byte("\xff\xfe"), []byte("\xff\xfe")}, {[]byte("\xff"), []byte("\xfe")},
+		{[]byte("a\x00b"), []byte("a")}, {long1, c18Sha256(long1)}, {[]byte("a\x00b"), []byte("a\x00b")}, {[]byte("a\x00"), []byte("a")}, {[]byte("\xff\xfe"), []byte("\xff\xfe")}, {[]byte("\xff"), []byte("\xfe")},
 		{[]byte("\xff"), []byte("\ufffd")}, {[]byte("e\xcc\x81"), []byte("\u00e9")}, {[]byte("\xed\xa0\x80"), []byte("\ufffd\ufffd\ufffd")}, {[]byte("\xc3\xa9"), []byte("\xc3")}} {
 		run(pq[0], pq[1], 0)
 	}
